@@ -215,6 +215,75 @@ func C07(c *fw.Ctx) {
 			sane(c, model.Render(parenAll(prog)), "", fmt.Sprintf("heap-graph|%d", kinds), false)
 		}
 	}
+	// names and expressions quoted by diagnostics: every fault form that mentions a name or prints an
+	// expression, with names of every length 1..70 and 100/200/300 over three alphabets (ASCII, Bangla,
+	// Bangla with combining marks) and receiver chains of 1..8 links
+	{
+		alphabets := []struct {
+			tag   string
+			units []string
+		}{{"ascii", []string{"a", "b", "c", "d", "e"}}, {"bangla", []string{"\u0995", "\u0996", "\u0997", "\u0998", "\u099a"}}, {"bangla-marks", []string{"\u0995\u09be", "\u0995\u09bf", "\u0997\u09c1", "\u09a8\u09cd\u09a4", "\u09b0\u09c7"}}}
+		lengths := []int{}
+		for l := 1; l <= 70; l++ {
+			lengths = append(lengths, l)
+		}
+		lengths = append(lengths, 100, 200, 300)
+		mkName := func(units []string, l int) string {
+			var sb strings.Builder
+			for i := 0; i < l; i++ {
+				sb.WriteString(units[i%len(units)])
+			}
+			return sb.String()
+		}
+		faults := []struct {
+			tag string
+			src func(n string) string
+		}{
+			{"undefined-read", func(n string) string { return model.KwPrint + " " + n + ";\n" }},
+			{"undefined-assign", func(n string) string { return n + " = 1;\n" }},
+			{"undefined-call", func(n string) string { return n + "(1);\n" }},
+			{"redeclare", func(n string) string { return model.KwVar + " " + n + " = 1;\n" + model.KwVar + " " + n + " = 2;\n" }},
+			{"missing-property", func(n string) string { return model.KwVar + " " + n + " = {k: 1};\n" + model.KwPrint + " " + n + ".zz;\n" }},
+			{"missing-property-named", func(n string) string { return model.KwVar + " o = {k: 1};\n" + model.KwPrint + " o." + n + ";\n" }},
+			{"missing-property-assign-chain", func(n string) string { return model.KwVar + " o = {k: 1};\no." + n + ".k = 2;\n" }},
+			{"property-of-number", func(n string) string { return model.KwVar + " " + n + " = 5;\n" + model.KwPrint + " " + n + ".k;\n" }},
+			{"call-number", func(n string) string { return model.KwVar + " " + n + " = 5;\n" + n + "();\n" }},
+			{"index-number", func(n string) string { return model.KwVar + " " + n + " = 5;\n" + model.KwPrint + " " + n + "[0];\n" }},
+			{"index-out-of-range", func(n string) string { return model.KwVar + " " + n + " = [1];\n" + model.KwPrint + " " + n + "[7];\n" }},
+			{"arity", func(n string) string { return model.KwFun + " " + n + "(p) {}\n" + n + "();\n" }},
+			{"parameter-arity", func(n string) string { return model.KwFun + " f(" + n + ") {}\nf(1, 2);\n" }},
+			{"operand", func(n string) string { return model.KwVar + " " + n + " = \"s\";\n" + model.KwPrint + " -" + n + ";\n" }},
+			{"delete-missing", func(n string) string { return model.KwVar + " o = {k: 1};\n" + model.BiDelete + "(o, \"" + n + "\");\n" }},
+			{"string-in-message", func(n string) string { return model.KwPrint + " \"" + n + "\" - 1;\n" }},
+		}
+		for _, al := range alphabets {
+			for _, l := range lengths {
+				for _, f := range faults {
+					if !c.Mine() {
+						continue
+					}
+					sane(c, f.src(mkName(al.units, l)), "", "quoted-name|"+f.tag+"|"+al.tag, false)
+				}
+			}
+			// receiver chains: o.n.n.n....zz with the last link missing
+			for links := 1; links <= 8; links++ {
+				for _, l := range []int{1, 2, 3, 5, 8, 13, 21} {
+					if !c.Mine() {
+						continue
+					}
+					n := mkName(al.units, l)
+					lit := "1"
+					for i := 0; i < links; i++ {
+						lit = "{" + n + ": " + lit + "}"
+					}
+					chain := "o" + strings.Repeat("."+n, links)
+					sane(c, model.KwVar+" o = "+lit+";\n"+model.KwPrint+" "+chain+";\n"+model.KwPrint+" "+chain[:len(chain)-len(n)-1]+".zz;\n", "", "quoted-chain|"+al.tag, false)
+					sane(c, model.KwVar+" o = "+lit+";\n"+model.KwPrint+" "+chain+".zz;\n", "", "quoted-chain-number|"+al.tag, false)
+					sane(c, model.KwVar+" o = ["+lit+"];\n"+model.KwPrint+" o[0]"+strings.Repeat("."+n, links-1)+".zz;\n", "", "quoted-chain-index|"+al.tag, false)
+				}
+			}
+		}
+	}
 	// depth and size
 	depths := []int{100, 1000, 10000}
 	kw := func(s string) string { return s }
